@@ -4,6 +4,7 @@ import (
 	"fmt"
 	"go/token"
 	"go/types"
+	"sort"
 	"strings"
 
 	"golang.org/x/tools/go/ssa"
@@ -46,74 +47,9 @@ func runC09(c *Ctx) {
 	// R1 (b): byte identity through Raw - the enqueued value is Raw's parameter cut at CR/LF only (shared with C08.R1)
 	c.enqueueIdentityRule("R1")
 
-	// R2
-	var sender *ssa.Function
-	nRecv := 0
-	for _, fn := range funcs {
-		for _, op := range ChanOps(fn) {
-			if op.Kind != "recv" || !c.ChanMayBe(op.Chan, a.Out) {
-				continue
-			}
-			nRecv++
-			v := recvValue(op)
-			if a.IsMember(fn) && fn.Parent() == nil && valueUsed(v) {
-				ok := sender == nil || sender == fn
-				sender = fn
-				r.Add("R2", "recv-out:"+c.FuncKey(fn), c.InstrPos(op.In), c.FuncKey(fn), "forwarding receive is in the single send goroutine", ok, "member goroutine")
-				continue
-			}
-			ok, why := c.onlyFromTeardownAfterClear(fn)
-			if fn == a.TeardownCore {
-				ok = SetDominates(fn, func(in ssa.Instruction) bool { return c.isFlagClear(in) }, op.In)
-				why = "in the teardown after connected=false"
-			}
-			if valueUsed(v) {
-				ok, why = false, "a non-sender receiver uses the received line"
-			}
-			r.Add("R2", "recv-out:"+c.FuncKey(fn), c.InstrPos(op.In), c.FuncKey(fn), "other receivers only discard, in drain code started by the teardown after the flag is cleared", ok, why)
-		}
-	}
-	r.Floor("R2", "receives from the outbound queue", nRecv, 2)
-	r.Anchor("R2", "send goroutine (member that forwards the outbound queue)", sender != nil)
+	sender, writeFn := c.senderForwards("R2", "R3")
 	if sender == nil {
 		return
-	}
-	gs := c.GoSites(sender)
-	okSpawn := len(gs) == 1 && c.LoopDepth(gs[0].Block()) == 0 && len(c.Callers(sender)) == 1
-	r.Add("R2", "spawn:"+c.FuncKey(sender), c.Pos(sender.Pos()), c.FuncKey(sender), "sender is started by exactly one go statement outside any loop", okSpawn, fmt.Sprintf("%d go sites, %d call sites", len(gs), len(c.Callers(sender))))
-
-	// R3 (a) received value -> exactly one write call
-	var writeFn *ssa.Function
-	for _, op := range ChanOps(sender) {
-		if op.Kind != "recv" || !c.ChanMayBe(op.Chan, a.Out) {
-			continue
-		}
-		v := recvValue(op)
-		var uses []ssa.Instruction
-		for _, ref := range *v.Referrers() {
-			if _, ok := ref.(*ssa.DebugRef); ok {
-				continue
-			}
-			uses = append(uses, ref)
-		}
-		ok := len(uses) == 1
-		why := fmt.Sprintf("%d uses of the received line", len(uses))
-		if ok {
-			cs, isCall := uses[0].(*ssa.Call)
-			if !isCall || cs.Call.StaticCallee() == nil || !c.InModuleFn(cs.Call.StaticCallee()) {
-				ok, why = false, "received line is not passed directly to the write function"
-			} else {
-				writeFn = cs.Call.StaticCallee()
-				// once per receive
-				var recvIn ssa.Instruction = op.In
-				if !c.OncePerFrom(recvIn, v, cs) {
-					ok, why = false, "write is not executed exactly once per received line"
-				} else {
-					why = "passed unmodified to " + c.FuncKey(writeFn) + " once per receive"
-				}
-			}
-		}
-		r.Add("R3", "recv-to-write:"+c.FuncKey(sender), c.InstrPos(op.In), c.FuncKey(sender), "each dequeued line goes unmodified to exactly one write", ok, why)
 	}
 	r.Anchor("R3", "write function", writeFn != nil)
 	if writeFn != nil {
@@ -124,6 +60,8 @@ func runC09(c *Ctx) {
 		}
 	}
 	c.socketWritersRule("R3", writeFn)
+	r.Rule("R5", "every line handed to the client is enqueued: in each exported command method, no condition that dominates the call of Raw (or of the command / helper that sends) is computed from the client's run-time state - only from the method's arguments and the Config - so no command is silently dropped because of what was sent or received before")
+	c.commandsAlwaysSendRule("R5")
 	if writeFn != nil {
 		c.writeCompleteRule("R3", writeFn)
 	}
@@ -1286,4 +1224,261 @@ func (c *Ctx) socketWritersRule(rule string, writeFn *ssa.Function) {
 		})
 	}
 	r.Exactly(rule, "WriteString sites on the connection writer", nW, 1)
+}
+
+// commandsAlwaysSendRule: C09.R5. Every line handed to the client is written:
+// in an exported command method, whether the line is enqueued depends on the
+// call's own arguments and the caller's configuration only - never on the
+// client's run-time state (a remembered previous request, a flag, the result
+// of a method of the client). A command that is dropped because "the same was
+// asked a moment ago" is a line handed over and never written.
+func (c *Ctx) commandsAlwaysSendRule(rule string) {
+	r, a := c.R, c.A
+	noDispatch := func(from *ssa.Function, e Edge) bool {
+		if e.Site.Common().IsInvoke() || e.Kind == EdgeGo {
+			return false
+		}
+		return e.Callee != a.ConnDispatch && e.Callee != a.SetDispatch
+	}
+	ms := c.SSA.MethodSets.MethodSet(types.NewPointer(a.Conn))
+	cmds := map[*ssa.Function]bool{}
+	for i := 0; i < ms.Len(); i++ {
+		sel := ms.At(i)
+		if !sel.Obj().Exported() {
+			continue
+		}
+		fn := c.SSA.MethodValue(sel)
+		if fn == nil || fn.Blocks == nil || fn == a.Raw {
+			continue
+		}
+		if _, ok := c.Closure([]*ssa.Function{fn}, noDispatch).Funcs[a.Raw]; ok {
+			cmds[fn] = true
+		}
+	}
+	// dependsOnState: the value is computed from the client object itself (a method of it, a field other than
+	// its configuration)
+	var dep func(v ssa.Value, recv ssa.Value, depth int, seen map[ssa.Value]bool) string
+	dep = func(v ssa.Value, recv ssa.Value, depth int, seen map[ssa.Value]bool) string {
+		if v == nil || seen[v] || depth > 12 {
+			return ""
+		}
+		seen[v] = true
+		switch t := v.(type) {
+		case *ssa.Const, *ssa.Parameter, *ssa.Global, *ssa.Function:
+			return ""
+		case *ssa.UnOp:
+			if t.Op == token.MUL {
+				// a load: through the configuration is the caller's setting; through another field of the client is state
+				addr := t.X
+				var chain []*types.Var
+				for {
+					if fa, ok := addr.(*ssa.FieldAddr); ok {
+						fv, _ := fieldOf(fa)
+						chain = append(chain, fv)
+						addr = fa.X
+						continue
+					}
+					if ld, ok := addr.(*ssa.UnOp); ok && ld.Op == token.MUL {
+						addr = ld.X
+						continue
+					}
+					break
+				}
+				if addr == recv && len(chain) > 0 {
+					first := chain[len(chain)-1]
+					if first == a.Cfg {
+						return ""
+					}
+					return "reads the client's field " + first.Name()
+				}
+				return dep(addr, recv, depth+1, seen)
+			}
+			return dep(t.X, recv, depth+1, seen)
+		case *ssa.Call:
+			for _, av := range t.Call.Args {
+				if av == recv {
+					if sc := t.Call.StaticCallee(); sc != nil && !t.Call.IsInvoke() && c.readsOnlyConfig(sc, 0) {
+						return "" // a getter of configuration
+					}
+					return "result of " + calleeName(&t.Call) + " on the client"
+				}
+			}
+			if t.Call.IsInvoke() && t.Call.Value == recv {
+				return "result of a method of the client"
+			}
+			for _, av := range t.Call.Args {
+				if s := dep(av, recv, depth+1, seen); s != "" {
+					return s
+				}
+			}
+			return ""
+		}
+		if in, ok := v.(ssa.Instruction); ok {
+			for _, op := range in.Operands(nil) {
+				if op != nil && *op != nil {
+					if s := dep(*op, recv, depth+1, seen); s != "" {
+						return s
+					}
+				}
+			}
+		}
+		return ""
+	}
+	n := 0
+	var names []string
+	for fn := range cmds {
+		names = append(names, fn.Name())
+	}
+	sort.Strings(names)
+	for _, nm := range names {
+		var fn *ssa.Function
+		for f := range cmds {
+			if f.Name() == nm {
+				fn = f
+			}
+		}
+		if len(fn.Params) == 0 {
+			continue
+		}
+		recv := ssa.Value(fn.Params[0])
+		k := 0
+		for _, cs := range CallSites(fn) {
+			callee := cs.Common().StaticCallee()
+			if callee == nil || cs.Common().IsInvoke() {
+				continue
+			}
+			if _, isGo := cs.(*ssa.Go); isGo {
+				continue
+			}
+			sends := callee == a.Raw || cmds[callee]
+			if !sends && c.InModuleFn(callee) {
+				_, sends = c.Closure([]*ssa.Function{callee}, noDispatch).Funcs[a.Raw]
+			}
+			if !sends {
+				continue
+			}
+			k++
+			n++
+			why := ""
+			for _, cd := range CondsAt(cs.Block()) {
+				if s := dep(cd.V, recv, 0, map[ssa.Value]bool{}); s != "" {
+					why = "guarded by a condition that " + s + " (" + c.InstrPos(cd.If) + ")"
+				}
+			}
+			r.Add(rule, fmt.Sprintf("always-sends:%s#%d", fn.Name(), k), c.InstrPos(cs), c.FuncKey(fn), "whether a command's line is enqueued depends on its arguments and the configuration only", why == "", why)
+		}
+	}
+	r.Floor(rule, "sending call sites in exported command methods", n, 25)
+}
+
+// senderForwards: the single send goroutine (the member whose body uses what
+// it receives from the outbound queue), and the function each received line
+// is handed to, unmodified, exactly once per receive.
+func (c *Ctx) senderForwards(ruleRecv, ruleFwd string) (*ssa.Function, *ssa.Function) {
+	r, a := c.R, c.A
+	funcs := c.clientFuncs()
+	// R2
+	var sender *ssa.Function
+	nRecv := 0
+	for _, fn := range funcs {
+		for _, op := range ChanOps(fn) {
+			if op.Kind != "recv" || !c.ChanMayBe(op.Chan, a.Out) {
+				continue
+			}
+			nRecv++
+			v := recvValue(op)
+			if a.IsMember(fn) && fn.Parent() == nil && valueUsed(v) {
+				ok := sender == nil || sender == fn
+				sender = fn
+				r.Add(ruleRecv, "recv-out:"+c.FuncKey(fn), c.InstrPos(op.In), c.FuncKey(fn), "forwarding receive is in the single send goroutine", ok, "member goroutine")
+				continue
+			}
+			ok, why := c.onlyFromTeardownAfterClear(fn)
+			if fn == a.TeardownCore {
+				ok = SetDominates(fn, func(in ssa.Instruction) bool { return c.isFlagClear(in) }, op.In)
+				why = "in the teardown after connected=false"
+			}
+			if valueUsed(v) {
+				ok, why = false, "a non-sender receiver uses the received line"
+			}
+			r.Add(ruleRecv, "recv-out:"+c.FuncKey(fn), c.InstrPos(op.In), c.FuncKey(fn), "other receivers only discard, in drain code started by the teardown after the flag is cleared", ok, why)
+		}
+	}
+	r.Floor(ruleRecv, "receives from the outbound queue", nRecv, 2)
+	r.Anchor(ruleRecv, "send goroutine (member that forwards the outbound queue)", sender != nil)
+	if sender == nil {
+		return nil, nil
+	}
+	gs := c.GoSites(sender)
+	okSpawn := len(gs) == 1 && c.LoopDepth(gs[0].Block()) == 0 && len(c.Callers(sender)) == 1
+	r.Add(ruleRecv, "spawn:"+c.FuncKey(sender), c.Pos(sender.Pos()), c.FuncKey(sender), "sender is started by exactly one go statement outside any loop", okSpawn, fmt.Sprintf("%d go sites, %d call sites", len(gs), len(c.Callers(sender))))
+
+	// R3 (a) received value -> exactly one write call
+	var writeFn *ssa.Function
+	for _, op := range ChanOps(sender) {
+		if op.Kind != "recv" || !c.ChanMayBe(op.Chan, a.Out) {
+			continue
+		}
+		v := recvValue(op)
+		var uses []ssa.Instruction
+		for _, ref := range *v.Referrers() {
+			if _, ok := ref.(*ssa.DebugRef); ok {
+				continue
+			}
+			uses = append(uses, ref)
+		}
+		ok := len(uses) == 1
+		why := fmt.Sprintf("%d uses of the received line", len(uses))
+		if ok {
+			cs, isCall := uses[0].(*ssa.Call)
+			if !isCall || cs.Call.StaticCallee() == nil || !c.InModuleFn(cs.Call.StaticCallee()) {
+				ok, why = false, "received line is not passed directly to the write function"
+			} else {
+				writeFn = cs.Call.StaticCallee()
+				// once per receive
+				var recvIn ssa.Instruction = op.In
+				if !c.OncePerFrom(recvIn, v, cs) {
+					ok, why = false, "write is not executed exactly once per received line"
+				} else {
+					why = "passed unmodified to " + c.FuncKey(writeFn) + " once per receive"
+				}
+			}
+		}
+		r.Add(ruleFwd, "recv-to-write:"+c.FuncKey(sender), c.InstrPos(op.In), c.FuncKey(sender), "each dequeued line goes unmodified to exactly one write", ok, why)
+	}
+	return sender, writeFn
+}
+
+// readsOnlyConfig: fn is a method of the client that looks at nothing of the
+// client but its configuration: every use of the receiver is the address of
+// the config field (or a call of another such method), and it stores nothing.
+func (c *Ctx) readsOnlyConfig(fn *ssa.Function, depth int) bool {
+	if depth > 2 || fn == nil || fn.Blocks == nil || !c.InModuleFn(fn) || len(fn.Params) == 0 || len(fn.AnonFuncs) > 0 {
+		return false
+	}
+	recv := fn.Params[0]
+	ok := true
+	for _, ref := range *recv.Referrers() {
+		switch t := ref.(type) {
+		case *ssa.DebugRef:
+		case *ssa.FieldAddr:
+			if fv, _ := fieldOf(t); fv != c.A.Cfg {
+				ok = false
+			}
+		case *ssa.Call:
+			sc := t.Call.StaticCallee()
+			if sc == nil || t.Call.IsInvoke() || !c.readsOnlyConfig(sc, depth+1) {
+				ok = false
+			}
+		default:
+			ok = false
+		}
+	}
+	funcInstrs(fn, func(in ssa.Instruction) {
+		switch in.(type) {
+		case *ssa.Store, *ssa.MapUpdate, *ssa.Send, *ssa.Go, *ssa.Defer:
+			ok = false
+		}
+	})
+	return ok
 }
